@@ -125,6 +125,7 @@ type Exec struct {
 	condWaiters  map[*Cell][]*gor
 	abstracted   bool // this path used an over-approximating model
 	opGors       []*gor          // logical operation threads of vConcurrently (interleaving exploration)
+	schedBound   int             // context bound set by the harness (0: default)
 	preemptions  int             // scheduling decisions other than run-to-completion taken on this path
 	muState      map[*Cell]*muSt // mutex model while operation threads are live
 	evl          *eventLogT
